@@ -418,6 +418,12 @@ def r03_7(ctx) -> None:
 
 
 def run(ctx) -> None:
+    # key given as a key set: the algorithm -> key-type table covers every registered algorithm (C14), and every admissible header is
+    # judged by a per-instance registry (C15)
+    from .c14 import r14_3
+    from .c15 import r15_5
+    ctx.guard_as("R03.8", r14_3)
+    ctx.guard_as("R03.8", r15_5)
     ctx.guard(r03_7)
     ctx.guard(r03_6)
     ctx.guard(r03_1)
